@@ -328,6 +328,22 @@ def run(ctx):
         cases.append({"id": max(c["id"] for c in cases) + 1, "seed": 0, "kind": "value-signed-const-ref-under-minmax",
                       "src_a": f"const A: i8 = PARTY_0::X;\nconst B: i8 = {fn}(A, {other}i8);\npub fn main(x: i8) -> i8 {{ x ^ B }}\n",
                       "src_b": f"pub fn main(x: i8) -> i8 {{ x ^ {want}i8 }}\n", "params": [["x", {"k": "int", "t": "i8"}]], "args": [[0], [-1]], "cg": cg3})
+    # a variable named like a constant: a local of the caller, a parameter of main, a parameter of a function in
+    # between. The function that uses the constant must see the constant; main must see its parameter
+    shadow = [
+        ("caller-local", "fn f(a: u8) -> u8 { a + K }\npub fn main(x: u8) -> u8 { let K = 100u8; f(x) ^ K }\n"),
+        ("main-parameter", "fn f(a: u8) -> u8 { a + K }\npub fn main(K: u8) -> u8 { f(K) }\n"),
+        ("main-parameter-only", "fn f(a: u8) -> u8 { a ^ K }\npub fn main(K: u8) -> u8 { f(3u8) + K + K }\n"),
+        ("parameter-in-between", "fn g(K: u8) -> u8 { f(K) }\nfn f(a: u8) -> u8 { a + K }\npub fn main(x: u8) -> u8 { g(x) }\n"),
+        ("loop-variable", "fn f(a: u8) -> u8 { a + K }\npub fn main(x: u8) -> u8 { let mut s = 0u8; for K in [x, 3u8] { s = s ^ f(K); } s }\n"),
+    ]
+    for name, body in shadow:
+        cg5 = ConstGen(random.Random(0))
+        cg5.decls.append(("K", "u8", "PARTY_0::K", ["ext", "PARTY_0", "K"]))
+        cg5.supplied = {"PARTY_0": {"K": ("u8", 1)}}
+        cases.append({"id": max(c["id"] for c in cases) + 1, "seed": 0, "kind": "value-const-shadowed:" + name,
+                      "src_a": "const K: u8 = PARTY_0::K;\n" + body,
+                      "src_b": body.replace("a + K", "a + 1u8").replace("a ^ K", "a ^ 1u8"), "params": [["x", {"k": "int", "t": "u8"}]], "args": [[5], [40]], "cg": cg5})
     # the same for usize (32 bits): the sum wraps past 2^32, a later constant compares it
     cg4 = ConstGen(random.Random(0))
     cg4.decls.append(("A", "usize", "PARTY_0::X + 4294967290usize", ["add"]))
